@@ -67,6 +67,17 @@ func (r *Restoration) Apply(res *pbresource.Resource) error {
 // Commit the restoration. Replaces the in-memory database wholesale and closes
 // any watches.
 func (r *Restoration) Commit() {
+	// Carry the event index over from the database being replaced. Events
+	// emitted before the restore may still be queued in the publisher; watches
+	// created after the restore must get a snapshot index that is not below
+	// them, or they would be delivered on top of the restored listing.
+	oldTx := r.s.txn(false)
+	idx, err := currentEventIndex(oldTx)
+	oldTx.Abort()
+	if err == nil {
+		_ = r.tx.Insert(tableNameMetadata, meta{Key: metaKeyEventIndex, Value: idx})
+	}
+
 	r.tx.Commit()
 
 	r.s.mu.Lock()
